@@ -241,6 +241,28 @@ impl BatchSender {
     }
 }
 
+/// Verification hooks (feature `verif-hooks`, off by default, add-only):
+/// read-only views of the private queue state.
+#[cfg(feature = "verif-hooks")]
+impl BatchSender {
+    pub fn verif_last_flush_ms(&self) -> u64 {
+        self.last_flush_ms
+    }
+
+    pub fn verif_queue(&self) -> Vec<(Vec<u8>, Option<u32>, u64)> {
+        self.queue
+            .iter()
+            .zip(self.sequences.iter())
+            .zip(self.queue_times.iter())
+            .map(|((d, s), t)| (d.to_vec(), *s, *t))
+            .collect()
+    }
+
+    pub fn verif_batch_size(&self) -> usize {
+        self.regime.batch_size()
+    }
+}
+
 #[cfg(test)]
 mod tests {
     use super::*;
